@@ -497,7 +497,7 @@ def c10():
             reads = [{"mode": "plain"}]
             for kind in ("zero", "half", "eof", "ueof"):
                 reads.append({"mode": "fault", "allat": True, "kind": kind})
-                if not q or kind == "zero":
+                if kind == "zero" or (not q and kind == "eof"):
                     reads.append({"mode": "fault", "allat": True, "kind": kind, "sticky": True})
             c["reads"] = reads
     run_programs(ok, "c10", timeout=2400)
@@ -789,7 +789,9 @@ def c07():
         tr += r["states"]
     runs = "{1, 7, 8, 9, 63, 64, 496, 504, 505, 512}" if q else "{1, 2, 7, 8, 9, 16, 63, 64, 65, 496, 503, 504, 505, 512, 513, 1016}"
     for w in ((2,) if q else (1, 2, 4)):
-        r = model_check("MC_Hybrid", {"W": w, "MaxLen": 0, "Runs": runs, "MaxRuns": 2 if q else 3, "Cap": 63},
+        # three runs only for width 1 (64^3 would be 2 M states of 3000-value streams for the wider widths)
+        r = model_check("MC_Hybrid", {"W": w, "MaxLen": 0, "Runs": runs if w > 1 or q else "{1, 7, 8, 9, 63, 64, 504, 505, 512}",
+                                      "MaxRuns": 2 if q or w > 1 else 3, "Cap": 63},
                         ["WellFormedAndFaithful", "PadIsZero", "StateOK", "HeadersFit"], workers=8, tag="mchybruns%d" % w, timeout=2400)
         st += r["distinct"]
         tr += r["states"]
@@ -977,7 +979,8 @@ def foreign_case(rng, rows, ncols, comps, force=None):
         cols.append({"codec": force.get("codec") or rng.choice(CODECS), "literal": rng.random() < 0.5, "pages": pages,
                      "seg": force.get("seg") or rng.choice(SEG_POLICIES), "pad": rng.randrange(16), "stats": rng.random() < 0.5,
                      "extras": rng.random() < 0.3})
-    return {"rows": rows, "rgsplit": rgsplit, "cols": cols, "extras": rng.random() < 0.5, "seed": rng.randrange(1 << 30)}
+    return {"rows": rows, "rgsplit": rgsplit, "cols": cols, "extras": rng.random() < 0.5, "seed": rng.randrange(1 << 30),
+            "fileoff": rng.choice(["start", "start", "zero", "end"])}
 
 
 def c04():
